@@ -25,4 +25,5 @@ for P in "$@"; do
 done
 cd /
 git -C /repo worktree remove --force "$W"
-rm -rf /verif/.build/harness-* /verif/.build/target-*
+H=$(python3 -c "import hashlib,sys;print(hashlib.blake2b(sys.argv[1].encode(),digest_size=4).hexdigest())" "$W")
+rm -rf /verif/.build/harness-$H /verif/.build/target-$H /verif/.build/target-$H-*
